@@ -71,13 +71,14 @@ fn get_follow_leading(text: &str) -> Option<usize> {
 fn align_multiline<'a>(arena: &'a Arena<'a>, text: &'a str) -> ArenaDoc<'a> {
     let leading = get_follow_leading(text).unwrap();
     let mut doc = arena.nil();
+    // Trailing blanks are stripped from the output anyway; they must not count for the width.
     for (i, line) in text.lines().enumerate() {
         if i == 0 {
-            doc += line;
+            doc += line.trim_end();
         } else {
             doc += arena.hardline();
             if line.len() > leading {
-                doc += &line[leading..]; // Remove line prefix
+                doc += line[leading..].trim_end(); // Remove line prefix
             } // otherwise this line is blank
         }
     }
@@ -91,7 +92,7 @@ fn align_multiline_simple<'a>(arena: &'a Arena<'a>, text: &'a str) -> ArenaDoc<'
         if i > 0 {
             doc += arena.hardline();
         }
-        doc += line.trim_start();
+        doc += line.trim();
     }
     doc.hang(1)
 }
